@@ -131,7 +131,7 @@ def gen_table(rnd):
                             da = (da & ~0xf) | rnd.randrange(2)
                     if r < 0.15:
                         ty, da = 1, 0x7f000000 | rnd.randrange(1, ntypes + 1) << 16 | rnd.randrange(3)
-                    if r > 0.85 and types[t - 1] != 'string':
+                    if r > 0.85 and types[t - 1] == 'style':          # bags only in a bag type
                         entries[i] = X(key, [(0x01010000 + j, (rnd.choice(TYPES[:4] + [0x10, 0x11]), rnd.getrandbits(32) & ~0xf)) for j in range(rnd.randrange(1, 3))])
                     elif r > 0.7:
                         entries[i] = K(key, ty, da)
